@@ -158,7 +158,7 @@ def run(ctx):
     k3_after(ctx, "R1-jail-bracket", where, g, call, tear, "teardown_jail() runs on every exit of the command code (normal or exceptional)")
     fs = repo.func(RQ, "SmartServerRequest.setup_jail")
     ctx.check("R1-jail-root", f"{RQ}:SmartServerRequest.setup_jail", any(isinstance(s, ast.Assign) and norm(s.targets[0]) == "jail_info.transports" and norm(s.value) == "[self._jail_root]" for s in walk_own(fs)), "the jail consists of self._jail_root only")
-    fn, g, where = fn_cfg(ctx, RQ, "_pre_open_hook")
+    fn, g, where = fn_cfg(ctx, RQ, "_pre_open_hook", roles={"allowed_transports": ("assign", "getattr(jail_info, 'transports', None)")})
     rs = [n.id for n in g.nodes if n.kind == "stmt" and isinstance(n.ast, ast.Raise) and "JailBreak" in norm(n.ast)]
     rets = [n.id for n in g.nodes if n.kind == "stmt" and isinstance(n.ast, ast.Return)]
     ok = bool(rs) and len(rets) == 2 and g.exit not in g.reach([g.entry], avoid=rets, include_src=True)
@@ -193,14 +193,14 @@ def run(ctx):
         src = [nm for nm in srvs if f"{nm}.get_url()" in norm(n.ast.value)]
         ok = ok and bool(src) and all(g.always_before(A, [srvs[nm]])[0] for nm in src)
     ctx.check("R2-chrooted", where, ok, "every later decoration (userdir filter) wraps the chrooted transport", message="a decorator is built on the un-chrooted transport")
-    fn, g, where = fn_cfg(ctx, SV, "BzrServerFactory._expand_userdirs")
+    fn, g, where = fn_cfg(ctx, SV, "BzrServerFactory._expand_userdirs", roles={"expanded": ("assign", "self.userdir_expander(path)"), "result": ("return", None, None)})
     sl = [n.id for n in g.nodes if n.kind == "stmt" and isinstance(n.ast, ast.Assign) and norm(n.ast.targets[0]) == "result" and "expanded" in norm(n.ast.value)]
     need(where, sl, "result = expanded[...]")
     k2_unreachable(ctx, "R2-userdir-inside-base", where, g, {"expanded.startswith(self.base_path)": False}, sl, "a ~ expansion is used only when it lies under base_path")
     ctx.check("R2-userdir-inside-base", where, all(norm(r.value) == "result" for r in walk_own(fn) if isinstance(r, ast.Return)), "_expand_userdirs returns the guarded result")
 
     # ---- R3 -----------------------------------------------------------------
-    fn, g, where = fn_cfg(ctx, RQ, "SmartServerRequest.translate_client_path")
+    fn, g, where = fn_cfg(ctx, RQ, "SmartServerRequest.translate_client_path", roles={"relpath": ("assign", "~urlutils\\.joinpath\\('/', \\w+\\)")})
     env = {"self._root_client_path is None": False, "client_path.startswith(self._root_client_path)": False, "client_path + '/' == self._root_client_path": False}
     g2 = g.assume(env)
     ctx.check("R3-non-child-rejected", where, g.exit not in g2.reachable_from_entry() and any(isinstance(n.ast, ast.Raise) and "PathNotChild" in norm(n.ast) for n in g.nodes if n.kind == "stmt"), "a client path outside the root client path raises PathNotChild")
@@ -208,7 +208,10 @@ def run(ctx):
     rets = [n for n in g.nodes if n.kind == "stmt" and isinstance(n.ast, ast.Return) and "relpath" in norm(n.ast.value)]
     ctx.check("R3-joinpath-rechecked", where, bool(rets) and all(g.always_before(jp, [r.id])[0] for r in rets), "the translated path is normalised under '/' before it is returned")
     k2_unreachable(ctx, "R3-joinpath-rechecked", where, g, {"relpath.startswith('/')": False, "not relpath.startswith('/')": True}, [r.id for r in rets], "a normalised path that escaped '/' is refused")
+    from ..astutil import bind_roles, canonicalise
+
     ft = repo.func(RQ, "SmartServerRequest.transport_from_client_path")
+    ft = canonicalise(ft, bind_roles(ft, {"relpath": ("assign", "self.translate_client_path(client_path)")}, f"{RQ}:SmartServerRequest.transport_from_client_path"))
     cl = [c for c in calls_in(ft) if call_attr(c) == "clone"]
     srcs = {norm(s.targets[0]): norm(s.value) for s in walk_own(ft) if isinstance(s, ast.Assign)}
     ctx.check("R3-clone-translated", f"{RQ}:SmartServerRequest.transport_from_client_path", len(cl) == 1 and srcs.get(norm(cl[0].args[0]), "") == "self.translate_client_path(client_path)", "the backing transport is cloned with the translated path only")
